@@ -33,7 +33,8 @@ def zeros_like(
         return ImageType(np.zeros(image.shape, dtype=dtype), **image.metadata())
     elif mode == "voxels":
         return darsia.ScalarImage(
-            np.zeros(image.num_voxels, dtype=dtype), **image.metadata()
+            np.zeros(image.shape[: image.space_dim + image.time_dim], dtype=dtype),
+            **image.metadata(),
         )
 
 
@@ -61,5 +62,6 @@ def ones_like(
         return ImageType(np.ones(image.shape, dtype=dtype), **image.metadata())
     elif mode == "voxels":
         return darsia.ScalarImage(
-            np.ones(image.num_voxels, dtype=dtype), **image.metadata()
+            np.ones(image.shape[: image.space_dim + image.time_dim], dtype=dtype),
+            **image.metadata(),
         )
